@@ -15,6 +15,10 @@ def operands16():
     return [('wb', lambda: V('wb')), ('hb', lambda: V('hb')), ('w1', lambda: Index('warr', C(1))), ('wX', lambda: Index('warr', V('X')))]
 
 
+def named_consts():
+    return [('ks', lambda: V('ks')), ('ku', lambda: V('ku')), ('kw', lambda: V('kw'))]
+
+
 def consts8(): return [('k%d' % n, (lambda n=n: C(n))) for n in BOUNDARY]
 def consts16(): return [('k%d' % n, (lambda n=n: C(n))) for n in (256, 257, 0x7fff, 0x8000)]
 
@@ -45,6 +49,15 @@ def g_expr(tier):
     # plain moves (conversions, sign extension)
     for (dn, d), (rn, r) in itertools.product(dests(), srcs):
         yield mkprog('expr/mv/%s=%s' % (dn, rn), [A(d(), r())])
+    # named constants (const globals with an initialiser) as operands
+    for (dn, d), (kn, k) in itertools.product(dests()[:6], named_consts()):
+        yield mkprog('expr/kmv/%s=%s' % (dn, kn), [A(d(), k())])
+        for op, (rn, r) in itertools.product(['+', '-', '&', '|'], [('vb', lambda: V('vb')), ('wb', lambda: V('wb')), ('k1', lambda: C(1))]):
+            yield mkprog('expr/kbin/%s=%s%s%s' % (dn, kn, op, rn), [A(d(), B(op, k(), r()))])
+            yield mkprog('expr/kbin/%s=%s%s%s' % (dn, rn, op, kn), [A(d(), B(op, r(), k()))])
+        if (dn, kn) in (('va', 'ku'), ('sa', 'ks'), ('ha', 'kw'), ('X', 'ku'), ('Y', 'ku')):      # same type on both sides only
+            for op in ('<', '>=', '=='):
+                yield mkprog('expr/kcmp/%s/%s/%s' % (dn, kn, op), [If(B(op, d(), k()), A(V('vc'), C(1)), A(V('vc'), C(2)))])
     # shifts by constants
     for (dn, d), (ln, l), k, op in itertools.product(dests()[:6], [('vb', lambda: V('vb')), ('sb', lambda: V('sb')), ('wb', lambda: V('wb')), ('hb', lambda: V('hb')), ('X', lambda: V('X'))],
                                                      [0, 1, 2, 3, 4, 7, 8, 9, 15], ['<<', '>>']):
@@ -84,6 +97,11 @@ def g_expr(tier):
                 r3 = C(2) if o2 in ('<<', '>>') else mk(c); r2b = B(o2, mk(b), r3)
                 if o1 not in ('<<', '>>'):
                     yield mkprog(pid + '/R', [A(d(), B(o1, mk(a), r2b))])
+    # the same precedence pairs inside the initialiser of a local variable (separate operator table in the compiler)
+    for o1, o2 in itertools.product(bops, bops):
+        r3 = C(2) if o2 in ('<<', '>>') else V('vd'); r2 = C(1) if o1 in ('<<', '>>') else V('vc')
+        fi = Func('fi', None, [], Block([A(V('va'), V('l'))], decls=[('u8', 'l', Flat([V('vb'), o1, r2, o2, r3]))]))
+        yield mkprog('expr/precinit/va=vb%svc%svd' % (o1, o2), [ExprS(Call('fi', []))], funcs=[fi], extra_globals=['va', 'vb', 'vc', 'vd'])
     # comma, chained assignment
     yield mkprog('expr/comma', [A(V('va'), Comma(Assign(V('vb'), '=', C(3)), B('+', V('vb'), C(1))))])
     yield mkprog('expr/chain', [A(V('va'), Assign(V('vb'), '=', B('+', V('vc'), C(1))))])
